@@ -77,6 +77,8 @@ def float_linearised(chk: Check, n):
         for g, m in (("control", nc), ("treatment", nt)):
             y = rng.integers(1, 6, m).astype(float)
             x = rng.integers(-6, 9, m).astype(float) + (y if k % 2 else 0)
+            if k % 5 == 4:
+                y = y * 1e-7          # a denominator in tiny units (variance ~1e-14): the delta-method terms are all still there
             if zero == g:
                 x[-1] -= x.sum()                     # integer data: the sum is exactly 0
                 if len(set(x)) < 2:
@@ -88,7 +90,12 @@ def float_linearised(chk: Check, n):
             ys.append(y)
         data = pa.table({"variant": [0] * nc + [1] * nt, "x": np.concatenate(xs), "y": np.concatenate(ys)})
         try:
-            if k % 2:
+            if k % 3 == 2:
+                # SOME options explicit (among them alpha, which the analysis does not use), the confidence level from
+                # the configuration in force: each option is resolved on its own
+                with tt.config_context(confidence_level=cl, alpha=0.2):
+                    metric = tt.RatioOfMeans("x", "y", alternative=alt, equal_var=ev, use_t=ut, alpha=0.01)
+            elif k % 2:
                 # explicit options win over the global configuration in force at construction
                 with tt.config_context(alternative=[a for a in ("two-sided", "greater", "less") if a != alt][0],
                                        equal_var=not ev, use_t=not ut, confidence_level=0.5 if cl != 0.5 else 0.9):
